@@ -598,6 +598,9 @@ class Interp:
                 return any(self.P.is_subclass(a.qualname, x.qualname) for x in bs)
             if name == "isinstance":
                 tnode = e.args[1]
+                if isinstance(tnode, ast.Name) and tnode.id in env and isinstance(env[tnode.id], tuple) and all(isinstance(x, ClassVal) for x in env[tnode.id]) \
+                        and "isinstance" in self.externals:
+                    return self.externals["isinstance"](args[0], [x.qualname for x in env[tnode.id]])
                 tnames = [tnode] if not isinstance(tnode, ast.Tuple) else list(tnode.elts)
                 py = {"str": str, "int": int, "float": float, "bool": bool, "list": list, "dict": dict, "tuple": tuple, "set": set}
                 if all(isinstance(t, ast.Name) and t.id in py for t in tnames):
